@@ -144,6 +144,26 @@ func localisationJudge(root string, c GCase, rep *CaseReport) []Judgement {
 		out = append(out, Judgement{Property: judgeProp, Case: c.Name, Key: key, What: what})
 	}
 	ns := methodNotations(rep.Facts)
+	// the run fails although the front half (model) accepts, or vice versa
+	if (rep.Model.Status == "ok") != (rep.CLI.Class == "ok") && rep.CLI.Class != "panic" {
+		switch judgeProp {
+		case "C17":
+			add("C17|acceptance-differs", "the set of converter interfaces differs (model "+rep.Model.Status+", run "+rep.CLI.Class+"): "+firstLine(strings.Join(rep.Diffs, " / ")))
+		}
+	}
+	if judgeProp == "C17" {
+		notFound := func(lines []string) bool {
+			for _, l := range lines {
+				if strings.Contains(l, "interface not found") {
+					return true
+				}
+			}
+			return false
+		}
+		if notFound(rep.Model.Stderr) != notFound(canonStderr(rep.CLI.Stderr, root)) {
+			add("C17|selection-differs", "model and run disagree on whether the input file has a converter interface: "+firstLine(strings.Join(rep.Diffs, " / ")))
+		}
+	}
 	// exit-class differences
 	for i, cat := range rep.Cats {
 		if cat != "exit" {
@@ -235,8 +255,13 @@ func localisationJudge(root string, c GCase, rep *CaseReport) []Judgement {
 			if d.Cat == "doc" {
 				add("C11|method-doc-differs", "doc comment of "+d.Func+": "+d.String())
 			}
-		case "C01", "C02":
-			// judged independently (compiler / run-time driver)
+		case "C02":
+			// which value a field gets: the source its matching / notation denotes
+			if (d.Cat == "body" || d.Cat == "slice") && d.Path != "" && strings.Contains(d.Model+d.Impl, " = ") {
+				add("C02|assigned-from-other-source", "the value assigned to "+d.Func+" "+d.Path+" is not the one its source denotes: "+d.String())
+			}
+		case "C01":
+			// judged independently (compiler)
 		}
 	}
 	return out
